@@ -21,7 +21,17 @@ META = {
             "(binary64 by Flocq) and alpha in [0,1] the filter is monotone in state and inputs over every history, preserves "
             "sign, and keeps [lo,hi] invariant iff it does in the two constant corner cases; under the standard model "
             "|rnd x-x|<=eps|x|+eta one step stays in the hull enlarged by ((1+eps)^3-1)A+eta((1+eps)^2 A+2(1+eps)+1), "
-            "A>=|lo|,|hi|. Tie: bit-exact binary64 run of the same terms vs the C. Glue around the modelled core (differential tests, "
+            "A>=|lo|,|hi|. Rounded transfer function (C16/TfRound.v, 6 theorems; every std_model rnd eps eta, every pair of orders "
+            "nn, nd, every state; overflow outside the model): one a_tf_iter step returns y^ with |y^ - (sum num_i u_i - sum den_j y_j)| "
+            "<= ((1+eps)^(n+1)-1)(sum|num_i u_i| + sum|den_j y_j|) + 2n eta (1+eps)^(n+1), n = nn+nd, u and y the CURRENT (already "
+            "rounded) delay lines, the reference being what the exact instance returns from the same state; the gamma_(n+1) form when "
+            "(n+1)eps<1; one rounding fewer ((1+eps)^n, (2n-1) eta) when rnd is idempotent (and odd if the numerator is empty) - this "
+            "sharp form is the binary64 corollary (Flocq); over a whole run from the zero state, every input sequence, every index k, "
+            "the computed outputs satisfy the difference equation (feedback sum over the COMPUTED outputs) up to that one-step "
+            "residual, equivalently the computed sequence is the EXACT response over R to the inputs with a disturbance r_k within the "
+            "residual bound added at the summing node, and computed = exact + (exact response of the all-pole filter 1/den to r); no "
+            "bound on that propagated error and no perturbed-INPUT form is claimed (they depend on the stability of 1/den, 1/num). "
+            "Tie: bit-exact binary64 run of the same terms vs the C. Glue around the modelled core (differential tests, "
             "not theorems): the 11 C++ member functions of a_tf, a_lpf and a_hpf (list read from the headers on every run; those of "
             "a_lpf/a_hpf repeat the C inline bodies) against the C functions they stand for, all state and both delay lines compared bit "
             "for bit; and one driver generic in a_real built as float, double and long double with ASan+UBSan: a_tf_init/set_num/"
